@@ -511,6 +511,16 @@ func forSpecials() []model.Stmt {
 		out = append(out, model.If{Conds: []model.Expr{lit(1)}, Bodies: [][]model.Stmt{{model.Assign{Name: "fs", E: model.ArrLit{Elems: []model.Expr{model.Lit{V: model.Float(1.5)}, model.Lit{V: model.Float(2.5)}}}},
 			step, model.Text{S: "|"}, step, model.Text{S: "|"}, model.Print{E: model.Var{Name: "fs"}}}}})
 	}
+	// a float that is not a number is not 0.0: it is truthy in every loop condition
+	nan := model.Binary{Op: "/", L: model.Lit{V: model.Float(0)}, R: model.Lit{V: model.Float(0)}}
+	inf := model.Binary{Op: "/", L: model.Lit{V: model.Float(1)}, R: model.Lit{V: model.Float(0)}}
+	for _, cnd := range []model.Expr{nan, inf, model.Binary{Op: "-", L: inf, R: inf}, model.Binary{Op: "*", L: inf, R: model.Lit{V: model.Float(0)}}, model.Unary{Op: "-", X: nan}} {
+		out = append(out, model.Each{Var: "v", Arr: intArr(1, 2, 3), Body: []model.Stmt{model.Print{E: model.Var{Name: "v"}}, model.BreakIf{E: cnd}, model.Text{S: ","}}})
+		out = append(out, model.Each{Var: "v", Arr: intArr(1, 2, 3), Body: []model.Stmt{model.Print{E: model.Var{Name: "v"}}, model.ContinueIf{E: cnd}, model.Text{S: ","}}})
+		out = append(out, model.For{Init: &model.Assign{Name: "x", E: cnd}, Cond: model.Var{Name: "x"}, Body: []model.Stmt{model.Text{S: "in"}, model.Break{}}, Else: []model.Stmt{model.Text{S: " never"}}})
+		out = append(out, model.For{Cond: cnd, Body: []model.Stmt{model.Text{S: "in"}, model.Break{}}, Else: []model.Stmt{model.Text{S: " never"}}})
+		out = append(out, model.Each{Var: "f", Arr: model.ArrLit{Elems: []model.Expr{cnd, model.Lit{V: model.Float(0)}}}, Body: []model.Stmt{model.If{Conds: []model.Expr{model.Var{Name: "f"}}, Bodies: [][]model.Stmt{{model.Text{S: "t"}}}, Else: []model.Stmt{model.Text{S: "f"}}}}})
+	}
 	// empty bodies, with and without @else
 	out = append(out, model.Each{Var: "v", Arr: intArr(1, 2), Body: []model.Stmt{}, Else: []model.Stmt{model.Text{S: " never"}}})
 	out = append(out, model.Each{Var: "v", Arr: model.ArrLit{}, Body: []model.Stmt{}, Else: []model.Stmt{model.Text{S: " empty"}}})
